@@ -536,16 +536,18 @@ class Mitochondria:
 
         expression = expression.strip()
 
-        # Try JSON first
-        try:
-            return json.loads(expression)
-        except json.JSONDecodeError:
-            pass
-
-        # Try Python literal (safe)
+        # Try Python literal first (safe): a text that is a Python literal means what Python says it means.
+        # JSON reads some of the same texts differently ("\ud83d\ude00" is one character in JSON, two surrogates in
+        # Python; "\/" is "/" in JSON), so JSON only gets the texts that are not Python literals (true, null, ...)
         try:
             return ast.literal_eval(expression)
         except (ValueError, SyntaxError):
+            pass
+
+        # Try JSON
+        try:
+            return json.loads(expression)
+        except json.JSONDecodeError:
             pass
 
         raise ValueError(f"Cannot parse as JSON or Python literal: {expression[:50]}...")
